@@ -485,7 +485,10 @@ impl<'a> ArxmlParser<'a> {
                         let sub_element = self.parse_element(new_element, Cow::from(path.as_ref()), lexer)?;
                         stored_comment = None;
                         // if this sub element was a short name, then Autosar path handling is needed
-                        if name == ElementName::ShortName {
+                        // only a SHORT-NAME that is the first sub element gives its parent a name: this is the position
+                        // Element::item_name() reads. A SHORT-NAME that follows other content is an ordinary sub element
+                        // and the parent is reported as lacking its SHORT-NAME below
+                        if name == ElementName::ShortName && element.content.is_empty() {
                             short_name_found = true;
                             let sub_element_inner = sub_element.0.read();
                             if let Some(ElementContent::CharacterData(CharacterData::String(name_string))) =
